@@ -211,6 +211,13 @@ class _Gen:
             parts.append(self.guard(a, p.guards))
         if not parts:
             return None
+        # comparison of a boolean property with a parenthesised boolean sub-expression (either side)
+        bool_paths = [p for p in paths if not p.guards and _prim_of(self.spec, p.type) == "bool" and p.type.kind == "prim"]
+        if bool_paths and self.chance(0.2):
+            bp = self.pick(bool_paths)
+            j = self.draw(st.integers(0, len(parts) - 1))
+            op = self.pick(["==", "!=", "=="])
+            parts[j] = f"{bp.text} {op} ({parts[j]})" if self.draw(st.booleans()) else f"({parts[j]}) {op} {bp.text}"
         expr = parts[0]
         for nxt in parts[1:]:
             c = self.draw(st.integers(0, 3))
